@@ -354,7 +354,13 @@ func (p *vfDiscProvider) handle(w http.ResponseWriter, r *http.Request) {
 		}
 	case "e500":
 		http.Error(w, "internal error", http.StatusInternalServerError)
-	case "e503":
+	case "e503": // a maintenance page, as load balancers send it: most announce when to come back (the middleware's own back-off decides)
+		switch idx % 3 {
+		case 1:
+			w.Header().Set("Retry-After", "3600")
+		case 2:
+			w.Header().Set("Retry-After", time.Now().Add(2*time.Hour).UTC().Format(http.TimeFormat))
+		}
 		http.Error(w, "unavailable", http.StatusServiceUnavailable)
 	case "malformed":
 		w.Header().Set("Content-Type", "application/json")
